@@ -66,8 +66,7 @@ class SeqProp:
         r = random.Random(seed)
         if replay:
             rp = json.load(open(replay))
-            scs = [[tuple(o) for o in rp["scenario_ops"]]] if "scenario_ops" in rp else []
-            scs = [de_json(s) for s in scs]
+            scs = [de_json(rp["scenario_ops"])] if rp.get("scenario_ops") else []
         else:
             scs = [list(s) for s in self.corpus] + self.gen(r, tier)
         lines = [scen_wire(s) for s in scs]
